@@ -20,6 +20,9 @@ type vfOrderCase struct {
 	N       int    // queued user messages
 	Senders int    // concurrent senders
 	Kill    string // none | immediate | poison
+	// Self: the kill is issued by the actor itself (ctx.Kill(ctx.Ref(), poison)) from the handler of the message in front
+	// of the queued ones, instead of from outside after them
+	Self bool
 }
 
 func vfRunOrder(c vfOrderCase, res *vfCellResult) {
@@ -41,6 +44,10 @@ func vfRunOrder(c vfOrderCase, res *vfCellResult) {
 	gate := newVfGate()
 	w.tell(ref, "actorof", &vfCmd{ID: w.newID(), Op: "gate", Arg: gate})
 	<-gate.entered
+	if c.Self && c.Kill != "none" {
+		// first in the queue behind the gate: the message on which the actor kills itself
+		w.tell(ref, "actorof", &vfCmd{ID: w.newID(), Op: "killself", Arg: c.Kill == "poison"})
+	}
 	// senders enqueue at the same instant, each its own sequence
 	per := make([][]int, c.Senders)
 	var wg sync.WaitGroup
@@ -64,10 +71,11 @@ func vfRunOrder(c vfOrderCase, res *vfCellResult) {
 	}
 	wg.Wait()
 	w.wait()
-	switch c.Kill {
-	case "immediate":
+	switch {
+	case c.Self:
+	case c.Kill == "immediate":
 		w.sys.Kill(ref, false, "vf-order")
-	case "poison":
+	case c.Kill == "poison":
 		w.sys.Kill(ref, true, "vf-order")
 	}
 	w.wait()
@@ -140,20 +148,23 @@ func vfRunOrder(c vfOrderCase, res *vfCellResult) {
 	}
 	res.viols = append(res.viols, w.oracleOverlap()...)
 	res.viols = append(res.viols, w.oracleLifecycle()...)
-	res.sig = fmt.Sprintf("%d/%d/%s processed=%d dl=%d", c.N, c.Senders, c.Kill, processed, len(dl))
+	res.sig = fmt.Sprintf("%d/%d/%s/self=%v processed=%d dl=%d", c.N, c.Senders, c.Kill, c.Self, processed, len(dl))
 	if err := w.stop(); err != nil {
 		add("c07-stop-error", "order", "%v", err)
 	}
 }
 
 func TestVerif_orderactor(t *testing.T) {
-	R := verifrt.NewReport("orderactor", "enumerated: queued messages n in {0,1,2,3,255,256,257,258,511,512,513,600,1100} (the mailbox ring starts at 256 and doubles) x senders {1,2,3,8} x {no kill, immediate kill, poison kill}; the actor is held inside a handler (gate) while the senders enqueue at one virtual instant and the kill is enqueued after them, then released; monitors: per-sender sequence strictly consecutive, immediate kill seen before any queued message and each of them dead-lettered once, poison kill seen after all of them. non-trivial+distinct = distinct (n, senders, kill) with n >= 2")
+	R := verifrt.NewReport("orderactor", "enumerated: queued messages n in {0,1,2,3,255,256,257,258,511,512,513,600,1100} (the mailbox ring starts at 256 and doubles) x senders {1,2,3,8} x {no kill, immediate kill, poison kill; the kill issued from outside after the queued messages, or by the actor itself from the handler of the message in front of them}; the actor is held inside a handler (gate) while the senders enqueue at one virtual instant and the kill is enqueued after them, then released; monitors: per-sender sequence strictly consecutive, immediate kill seen before any queued message and each of them dead-lettered once, poison kill seen after all of them. non-trivial+distinct = distinct (n, senders, kill) with n >= 2")
 	defer R.Flush()
 	var cases []vfOrderCase
 	for _, n := range []int{0, 1, 2, 3, 255, 256, 257, 258, 511, 512, 513, 600, 1100} {
 		for _, s := range []int{1, 2, 3, 8} {
 			for _, k := range []string{"none", "immediate", "poison"} {
-				cases = append(cases, vfOrderCase{n, s, k})
+				cases = append(cases, vfOrderCase{N: n, Senders: s, Kill: k})
+				if k != "none" && (s == 1 || s == 3) {
+					cases = append(cases, vfOrderCase{N: n, Senders: s, Kill: k, Self: true})
+				}
 			}
 		}
 	}
